@@ -2,6 +2,7 @@ package rules
 
 import (
 	"fmt"
+	"go/types"
 	"sort"
 	"strings"
 
@@ -21,7 +22,8 @@ func init() {
 			"If even the may-flow does not connect a source to its destination, those validators are certainly dropped. " +
 			"(S2, no two live lists share a backing array) in the cone of UpdateNodeLists no two append() calls extend slices that may share the backing array of the same caller-visible buffer " +
 			"(interprocedural may-alias with per-function 'result aliases parameter' summaries): the second append overwrites what the first one added, silently replacing validators in a result list. " +
-			"Not decided (value-level): duplicates, slice-bound arithmetic, which keys are honoured as leaving.",
+			"(S3) a list stored into a shard map is never a two-index window x[a:b] of another list (it would keep that array's capacity: the next append overwrites the validators that follow). " +
+			"Not decided (value-level): duplicates inside the inputs, slice-bound arithmetic, which keys are honoured as leaving.",
 		Run: runC12,
 	})
 }
@@ -173,6 +175,54 @@ func runC12(c *core.Ctx) {
 		}
 	}
 	c.Note("S2: %d functions in the cone, %d append sites", len(cone), nApp)
+	// ---- S3 a validator list installed in a shard map is never a window x[a:b] of another list:
+	// such a window keeps the capacity of the whole array, so the next append to it overwrites the
+	// elements that follow it in that array (one validator lost, another listed twice)
+	nMU := 0
+	for _, f := range cone {
+		k := 0
+		core.Instrs(f, func(in ssa.Instruction) {
+			mu, ok := in.(*ssa.MapUpdate)
+			if !ok {
+				return
+			}
+			if _, isSl := mu.Value.Type().Underlying().(*types.Slice); !isSl {
+				return
+			}
+			k++
+			nMU++
+			var window *ssa.Slice
+			seen := map[ssa.Value]bool{}
+			var walk func(v ssa.Value)
+			walk = func(v ssa.Value) {
+				if seen[v] {
+					return
+				}
+				seen[v] = true
+				switch x := v.(type) {
+				case *ssa.Phi:
+					for _, e := range x.Edges {
+						walk(e)
+					}
+				case *ssa.Slice:
+					if x.High != nil && x.Max == nil {
+						if _, isAlloc := x.X.(*ssa.Alloc); !isAlloc {
+							window = x
+						}
+					}
+				}
+			}
+			walk(mu.Value)
+			wdesc := ""
+			if window != nil {
+				wdesc = core.ExprKey(window)
+			}
+			c.Check(window == nil, "C12/installed-list-owns-its-capacity", fmt.Sprintf("%s/map-store#%d", fname(f), k), mu.Pos(),
+				"the list stored in the shard map is not a capacity-sharing window of another list",
+				"the list stored in the shard map is the window "+wdesc+" of another list and keeps that array's spare capacity: the next append to it overwrites the validators that follow in the array")
+		})
+	}
+	c.Floor("C12/installed-list-owns-its-capacity", 5)
 	checkValidatorResultsUsed(c, "C12/validator-results-used", cone)
 	c.Floor("C12/validator-results-used", 10)
 	c.Floor("C12/no-shared-append-base", 2)
